@@ -263,10 +263,11 @@ func (cc *ClientConn) writeOKResultStream(status uint16, rs *mysql.Result, conti
 	if rs == nil {
 		return cc.writeOK(status)
 	}
+	// the flag the backend sets (a further result of its answer follows) is added to the status the
+	// caller asks for; it is not taken out of it: doMultiStmts sets it on the answer to every statement
+	// of a multi-statement packet but the last, and the backend knows nothing about that
 	if rs.Status&mysql.ServerMoreResultsExists > 0 {
 		status |= mysql.ServerMoreResultsExists
-	} else {
-		status = status &^ (1 << 3)
 	}
 	// one round per result of the response. A further result (CALL, multi-statement text) can be as
 	// large as the first one: the backend reader leaves its rows beyond mysql.MaxPayloadLen pending
